@@ -65,11 +65,12 @@ def run(ctx):
             if not (isinstance(st, ast.Assign) and len(st.targets) == 1 and isinstance(st.targets[0], ast.Attribute) and st.targets[0].attr in ("start", "end")):
                 continue
             t = st.targets[0]
-            v = st.value
-            if not (isinstance(v, ast.Call) and isinstance(v.func, ast.Name) and v.func.id in ("max", "min") and len(v.args) == 2):
+            # the intersection itself: max / min over two bounds of the same kind - possibly the else-arm of `b if a is None else max(a, b)`
+            v = next((c for c in au.walk_local(st.value) if isinstance(c, ast.Call) and isinstance(c.func, ast.Name) and c.func.id in ("max", "min")
+                      and len(c.args) == 2 and all(isinstance(a, ast.Attribute) and a.attr == t.attr for a in c.args)), None)
+            if v is None:
                 continue
-            if not all(isinstance(a, ast.Attribute) and a.attr == t.attr for a in v.args):
-                continue
+            none_arm = isinstance(st.value, ast.IfExp) and au.none_test(st.value.test) is not None and au.U(au.none_test(st.value.test)[0]) == au.U(t)
             n_i += 1
             want = "max" if t.attr == "start" else "min"
             ctx.ob("C16.i", fn, au.short(st, 70), v.func.id == want,
@@ -81,7 +82,7 @@ def run(ctx):
             other = next((a for a in v.args if a is not own), None)
             if own is None or other is None:
                 continue
-            covered = False
+            covered = bool(none_arm)
             # somewhere in the function the target is given the other bound under `<own> is None`
             for s2 in au.walk_stmts(fn.body):
                 if isinstance(s2, ast.Assign) and any(au.U(x) == au.U(t) for x in s2.targets) and s2 is not st:
@@ -97,7 +98,9 @@ def run(ctx):
                    "assets without dates delivers on all ten days of the horizon (value 1200 instead of 360)" % (
                        au.short(st, 50), au.short(guard.test, 60) if guard is not None else "", t.attr), node=st,
                    key="%s of the wrapped asset when it has none" % t.attr)
-    ctx.require(n_i >= 2, "no window intersection (x.start = max(..) / x.end = min(..)) found")
+    if n_i == 0:
+        ctx.ob("C16.i", "package", "window intersection of a wrapper", None, "no assignment x.start = max(..) / x.end = min(..) found (rewritten?)")
+        ctx.ob("C08.h", "package", "window intersection of a wrapper", None, "no assignment x.start = max(..) / x.end = min(..) found (rewritten?)")
 
     # ================================================================= C07.u discarded results
     for fn in sorted(p.all_functions(), key=lambda f: f.qualname):
@@ -119,9 +122,9 @@ def run(ctx):
 
     # ================================================================= C15.i / C15.j
     pf = p.fn_opt("Portfolio.setup_optim_problem")
-    ctx.require(pf is not None, "Portfolio.setup_optim_problem vanished")
+    ctx.require(pf is not None, "Portfolio.setup_optim_problem vanished", rules=['C15.i', 'C15.j'])
     fix_if = [s2 for s2 in au.walk_stmts(pf.body) if isinstance(s2, ast.If) and "fix_time_window" in au.names_in(s2.test)]
-    ctx.require(bool(fix_if), "fix_time_window branch vanished")
+    ctx.require(bool(fix_if), "fix_time_window branch vanished", rules=['C15.i', 'C15.j'])
     roles = local_roles(pf)
     org = ctx.origins(pf)
     pins = [s2 for s2 in au.walk_stmts(fix_if[0].body) if isinstance(s2, ast.Assign) and isinstance(s2.targets[0], ast.Subscript)
